@@ -473,6 +473,76 @@ theorem parseRdata_aaaa_text (gs : List Nat) (hlen : gs.length = 8) (hgs : ∀ g
     readField_plain parseIpv6 .InvalidIpv6 _ _ _ hplain hl hEnd (parseIpv6_render gs hlen hgs),
     expectEol_tail tg cmt _ hT eol r he, mkRdata_ok _ hmk]
 
+omit he in
+theorem groupsText_plain (gs : List Nat) : ∀ x ∈ groupsText gs, plainOctet x = true := by
+  cases gs with
+  | nil => intro x hx; simp [groupsText] at hx
+  | cons g gs => exact (groupsText_facts (g :: gs) (by simp)).1
+
+omit he in
+theorem groupsText_length (gs : List Nat) (h : ∀ g ∈ gs, g < 65536) : (groupsText gs).length ≤ 5 * gs.length := by
+  have hh : ∀ g ∈ gs, (hexText g).length ≤ 4 := fun g hg => hexText_length g 3 (by simpa using h g hg)
+  induction gs with
+  | nil => simp [groupsText]
+  | cons g l ih =>
+    cases l with
+    | nil => have := hh g (by simp); simp [groupsText]; omega
+    | cons g2 l' =>
+      have := hh g (by simp)
+      have := ih (fun x hx => h x (by simp [hx])) (fun x hx => hh x (by simp [hx]))
+      simp only [groupsText, List.length_append, List.length_cons] at this ⊢
+      omega
+
+/-- IN AAAA with `::` -/
+theorem parseRdata_aaaaC_text (hd tl : List Nat) (hlen : hd.length + tl.length ≤ 7)
+    (hhd : ∀ g ∈ hd, g < 65536) (htl : ∀ g ∈ tl, g < 65536)
+    (hG : ∀ i, i ≤ 0 → GapOK (G i) (S i) (S (i + 1))) (hT : TailOK tg cmt (S 1)) :
+    parseRdata ctx 1 28 ⟨gapText (G 0) ++ ((groupsText hd ++ (58 :: 58 :: groupsText tl)) ++ (tailText tg cmt eol ++ r)), line, S 0⟩ =
+      .ok ((hd ++ List.replicate (8 - hd.length - tl.length) 0 ++ tl).flatMap u16be',
+        ⟨r, line + gapLines (G 0) + gapLines tg + eolLines eol, false⟩) := by
+  have hEnd := atFieldEnd_tail tg cmt _ hT eol r he
+  have harm : findArm 1 28 = some "parse_in_aaaa_rdata" := by decide
+  have hplain : ∀ x ∈ groupsText hd ++ (58 :: 58 :: groupsText tl), plainOctet x = true := by
+    intro x hx
+    simp only [List.mem_append, List.mem_cons] at hx
+    rcases hx with h | rfl | rfl | h
+    · exact groupsText_plain hd x h
+    · decide
+    · decide
+    · exact groupsText_plain tl x h
+  have hstarts : Starts (groupsText hd ++ (58 :: 58 :: groupsText tl)) := by
+    cases hd with
+    | nil => exact ⟨58, _, rfl, .inr (by decide)⟩
+    | cons g gs => exact ((groupsText_facts (g :: gs) (by simp)).2.1).append _
+  have hnb : ¬ [92, 35] <+: groupsText hd ++ (58 :: 58 :: groupsText tl) := by
+    obtain ⟨c, t, hct, hc⟩ := hstarts
+    rw [hct]
+    rintro ⟨u, hu⟩
+    simp at hu
+    obtain ⟨rfl, _⟩ := hu
+    -- the first octet is a plain one
+    have := hplain 92 (by rw [hct]; simp)
+    revert this; decide
+  have hl : (groupsText hd ++ (58 :: 58 :: groupsText tl)).length ≤ 65536 := by
+    have h1 := groupsText_length hd hhd
+    have h2 := groupsText_length tl htl
+    simp only [List.length_append, List.length_cons]
+    omega
+  have hmk : ((hd ++ List.replicate (8 - hd.length - tl.length) 0 ++ tl).flatMap u16be').length ≤ 65535 := by
+    have : ∀ (l : List Nat), (l.flatMap u16be').length = 2 * l.length := by
+      intro l; induction l with
+      | nil => rfl
+      | cons g l ih => simp [u16be', ih]; omega
+    rw [this]
+    simp only [List.length_append, List.length_replicate]
+    omega
+  rw [parseRdata_typed ctx 1 28 _ harm _ _ _ (hG 0 (by omega)) _ _ hstarts hnb hEnd line]
+  show inAaaaRdataBody _ = _
+  unfold inAaaaRdataBody
+  simp only [bind, P.bind,
+    readField_plain parseIpv6 .InvalidIpv6 _ _ _ hplain hl hEnd (parseIpv6_compressed hd tl hlen hhd htl),
+    expectEol_tail tg cmt _ hT eol r he, mkRdata_ok _ hmk]
+
 /-- CH A: network name and octal address -/
 theorem parseRdata_chA_text (T w : List UInt8) (k : Nat) (hn : NameTextOK ctx.origin T w k) (hnb : ¬ [92, 35] <+: T)
     (a : Nat) (ha : a ≤ 65535)
@@ -618,6 +688,7 @@ def WFRdata : PRdata → Prop
   | .hinfo c o => WFString c ∧ WFString o ∧ notBh (stringText c)
   | .aaaa gs => gs.length = 8 ∧ ∀ g ∈ gs, g < 65536
   | .chA n a => WFName n ∧ notBh (nameText n) ∧ a ≤ 65535
+  | .aaaaC hd tl => hd.length + tl.length ≤ 7 ∧ (∀ g ∈ hd, g < 65536) ∧ ∀ g ∈ tl, g < 65536
 
 /-- **RDATA.**  The text of well-formed RDATA of the right kind for `(cls, ty)`, with any
     well-formed gaps before, inside and after it, is read back by `parse_rdata` as the RDATA it
@@ -749,5 +820,29 @@ theorem parseRdata_render (ctx : Ctx) (hctx : CtxWF ctx) (cls ty : Nat) (h41 : t
     have := parseRdata_chA_text ctx G S tg cmt eol r he line (nameText n) wn (nameLines n)
       (nameText_ok ctx.origin hO n hn wn hwn) hnb a ha hG hT
     simpa [rdataText, rdataLines, u16Wire, u16be, Nat.add_assoc, Nat.add_comm (gapLines (G 0))] using this
+  | aaaaC hd tl =>
+    obtain ⟨hlen, hhd, htl⟩ := hwf
+    simp only [kindOK, Bool.and_eq_true, beq_iff_eq] at hk
+    obtain ⟨rfl, rfl⟩ := hk
+    simp only [rdataWire, Option.some.injEq] at hw
+    subst hw
+    have := parseRdata_aaaaC_text ctx G S tg cmt eol r he line hd tl hlen hhd htl hG hT
+    have hw : ∀ l : List Nat, (∀ g ∈ l, g < 65536) → l.flatMap u16be' = l.flatMap u16Wire := by
+      intro l
+      induction l with
+      | nil => intro _; rfl
+      | cons g l ih =>
+        intro h
+        have hg := h g (by simp)
+        simp only [List.flatMap_cons, ih (fun x hx => h x (by simp [hx])), u16be', u16Wire]
+        rw [Nat.mod_eq_of_lt (by omega : g / 256 < 256)]
+    rw [hw _ (by
+      intro g hg
+      simp only [List.mem_append, List.mem_replicate] at hg
+      rcases hg with (h | ⟨_, rfl⟩) | h
+      · exact hhd g h
+      · decide
+      · exact htl g h)] at this
+    simpa [rdataText, rdataLines] using this
 
 end QV.ZF
